@@ -72,6 +72,8 @@ def ddmin_list(items, test, budget):
 
 def shrink_generic(scn, fails, max_tests=MAX_TESTS):
     """Generic shrink over the common scenario format (frames/faults/transport/config)."""
+    if len(scn.get("frames") or ()) > 200 or sum(len(f["hex"]) for f in scn.get("frames") or ()) > 40000:
+        max_tests = min(max_tests, 400)  # long wires: each test is expensive
     budget = _Budget(max_tests)
     cur = copy.deepcopy(scn)
 
